@@ -45,7 +45,14 @@ def _quant(ip, args, st, universal):
         return b_and(*parts) if universal else b_or(*parts)
     k = z3.Int(ip.ctx.fresh_name('q'))
     call = ast.parse('__f(__k)', mode='eval').body
-    body = ip.spec_bool(call, st, extra={'__f': fn, '__k': SNum(k)})
+    try:
+        body = ip.spec_bool(call, st, extra={'__f': fn, '__k': SNum(k)})
+    except EngineError as e:
+        if 'empty concrete list' not in str(e):
+            raise
+        # the body indexes a list that is empty on this path: its value is left unconstrained (a fresh
+        # boolean), so the quantified formula is provable only where the range itself is empty
+        body = z3.Bool(ip.ctx.fresh_name('undefined_body'))
     rng = z3.And(zval(lo) <= k, k < zval(hi))
     if universal:
         return SBool(z3.ForAll([k], z3.Implies(rng, body)))
